@@ -630,20 +630,34 @@ func ruleL3(c *Ctx) *RuleResult {
 				return false
 			})
 			slotsL3, _ := c.slotFields()
+			// a change made on a path that can only end in an error return (the roll-back of a failed step) owes no
+			// wake-up to the success returns of the function
+			reachesSuccess := func(x ssa.Instruction) bool {
+				return pathAvoidingRaw(fn, x, func(ssa.Instruction) bool { return false }, func(y ssa.Instruction) bool {
+					ret, ok := y.(*ssa.Return)
+					return ok && isSuccessReturn(ret)
+				})
+			}
 			for x := range reachI {
 				if st, ok := x.(*ssa.Store); ok {
 					if f, _ := fieldOfAddr(st.Addr); f != nil && pred[cls][f] {
-						if !(slotsL3[f] && freshEmptyObject(c, st.Val)) {
+						if !(slotsL3[f] && freshEmptyObject(c, st.Val)) && reachesSuccess(x) {
 							mods[f] = true
 						}
 					}
 				}
 				if ci, ok := x.(ssa.CallInstruction); ok && classifySync(ci.Common()) == opNone {
+					var hit []*types.Var
 					for _, g := range c.calleesOf(ci) {
 						for f := range c.predModSet(g) {
 							if pred[cls][f] {
-								mods[f] = true
+								hit = append(hit, f)
 							}
+						}
+					}
+					if len(hit) > 0 && reachesSuccess(x) {
+						for _, f := range hit {
+							mods[f] = true
 						}
 					}
 				}
